@@ -58,7 +58,7 @@ From WaxProofs Require Import DepthAltFacts ExhaustAltFacts.
    bound means the expansion ends with a tree wildcard followed by separators and zero-or-more wildcards only; with the rule
    checker's guarantees over expansions (C06: no adjacent boundaries, no adjacent zero-or-more wildcards) that tail is `*`, `*/*`,
    ..., which absorbs any further component.  What remains excluded is the known class trailing_boundary (may_end_sep); with
-   repetitions the verdict was unsound twice (46d7bc7, 8aceb3d: repaired) and optional repetitions remain a known class *)
+   repetitions the verdict was unsound twice (46d7bc7, 6c17bd8: repaired) and optional repetitions remain a known class *)
 Theorem C09_built_globs_without_repetitions_always_sound : forall orbit e t r p z,
   build e = BuildOk t r -> rep_free t = true -> is_exhaustive t = Ok Always -> may_end_sep t = false -> nosep z = true ->
   Lang orbit t p -> Lang orbit t (p ++ SEP :: z).
@@ -70,3 +70,52 @@ Example C09_alternation_nonvacuous :
   let e := [120;47;123;97;47;42;42;44;98;47;42;42;47;42;125]%N in
   exists t r, build e = BuildOk t r /\ rep_free t = true /\ is_exhaustive t = Ok Always /\ may_end_sep t = false.
 Proof. cbv zeta. do 2 eexists. repeat split; vm_compute; reflexivity. Qed.
+
+From WaxProofs Require Import DepthTreeFacts RuleZomFacts ExhaustRepFacts.
+
+(* with repetitions: for every glob that builds and whose repetitions are all written out at least once and are either bounded above
+   or have a body that holds a bounded token (`<a:1,2>/**`, `<a/:1,>*/**/*`, `{<a:1,3>,b}/**/*` - the complement inside the
+   repetitions is the known class optional_repetition and the repetitions whose unbounded range multiplies an unbounded body), an
+   `Always` verdict is sound on every expansion that respects the two adjacency rules (C06) and does not end with a separator
+   (trailing_boundary).  The coverage argument of the repetition-free case, without its restriction on the shape of the variances:
+   an upper bound never disappears under conjunction, finalisation (`C09_upper_bounds_survive_conjunction`) or a product by a range
+   that is bounded above (`C09_upper_bounds_survive_bounded_products`), so a member of the term without upper bound still points at a
+   tree wildcard with a free tail - in the last copy of the body, which exists because the repetition is required; the guard of the
+   12th repair (no product for a bounded body) is exactly what makes the unbounded ranges harmless *)
+Theorem C09_built_globs_with_required_repetitions_always_sound : forall orbit e t r p z x,
+  build e = BuildOk t r -> required_reps t = true -> is_exhaustive t = Ok Always -> nosep z = true ->
+  Expands t x -> chain_ok false x = true -> zchain false x = true -> last_opt x <> Some LSep ->
+  FlatMatch orbit true true x p -> FlatMatch orbit true true x (p ++ SEP :: z).
+Proof. exact built_required_reps_always_sound. Qed.
+Print Assumptions C09_built_globs_with_required_repetitions_always_sound.
+
+Theorem C09_patterns_with_required_repetitions_always_sound : forall orbit t p z,
+  frp t = true -> nonempty_branches t = true -> is_exhaustive t = Ok Always -> nosep z = true ->
+  (forall x, Expands t x -> chain_ok false x = true /\ zchain false x = true /\ last_opt x <> Some LSep) ->
+  Lang orbit t p -> Lang orbit t (p ++ SEP :: z).
+Proof. exact frp_always_sound_lang. Qed.
+Print Assumptions C09_patterns_with_required_repetitions_always_sound.
+
+Theorem C09_upper_bounds_survive_conjunction : forall a b c, AlgebraClosure.st_ok a -> AlgebraClosure.st_ok b -> sterm_conj a b = Ok c ->
+  AlgebraClosure.st_ok c /\ (vform (snd c) -> vform (snd a) \/ vform (snd b)).
+Proof. exact sterm_conj_keeps_upper. Qed.
+Print Assumptions C09_upper_bounds_survive_conjunction.
+
+Theorem C09_upper_bounds_survive_bounded_products : forall v r v' h, AlgebraClosure.nv_ok v -> AlgebraClosure.nv_ok r ->
+  AlgebraClosure.hi_of r = Some h -> nvar_product v r = Ok v' -> vform v' -> vform v.
+Proof. exact product_keeps_upper. Qed.
+Print Assumptions C09_upper_bounds_survive_bounded_products.
+
+(* the premises are satisfiable: <a/:1,>*/**/* written out twice *)
+Example C09_repetition_nonvacuous :
+  let e := [60;97;47;58;49;44;62;42;47;42;42;47;42]%N in
+  exists t r x, build e = BuildOk t r /\ required_reps t = true /\ is_exhaustive t = Ok Always /\
+    Expands t x /\ chain_ok false x = true /\ zchain false x = true /\ last_opt x <> Some LSep.
+Proof.
+  cbv zeta. do 3 eexists. split; [vm_compute; reflexivity|]. split; [vm_compute; reflexivity|]. split; [vm_compute; reflexivity|].
+  split.
+  - eapply (E_cat _ _ [_; _; _; _]). constructor; [|constructor; [|constructor; [|constructor; [|constructor]]]]; try apply E_leaf.
+    eapply (E_rep _ _ _ _ [_; _]); [split; [vm_compute; discriminate|exact I]|].
+    constructor; [|constructor; [|constructor]]; (eapply (E_cat _ _ [_; _]); constructor; [apply E_leaf|constructor; [apply E_leaf|constructor]]).
+  - split; [vm_compute; reflexivity|]. split; [vm_compute; reflexivity|]. vm_compute. discriminate.
+Qed.
